@@ -55,7 +55,7 @@ func sweepC12(tier string) []Stratum {
 	return out
 }
 
-var corruptionNames = []string{"bitflip", "substitute", "burst", "truncate", "extend", "duplicate_segment", "fc_highbit", "leading_bytes"}
+var corruptionNames = []string{"bitflip", "substitute", "burst", "truncate", "extend", "duplicate_segment", "fc_highbit", "leading_bytes", "crc_swapped", "crc_bytes_only"}
 
 // strata: (client kind 0/1, fc index, exception?, corruption kind): first draws of genC12.
 func strataC12(tier string) [][]int32 {
@@ -167,6 +167,20 @@ func genC12(rc *RunCtx) (*C1, *c12Info, bool) {
 			lead = append([]byte(nil), good[max(0, n-len(lead)):]...) // the tail of a frame like this one
 		}
 		bad = append(lead, bad...)
+	case 8: // the two CRC bytes arrive in the wrong order (a device or gateway that appends the CRC high byte first)
+		info.Pos = n - 2
+		bad[n-2], bad[n-1] = bad[n-1], bad[n-2]
+	case 9: // the damage is confined to the CRC trailer: one of its bytes, or both, take other values
+		info.Pos = n - 2
+		switch t.Choose(3) {
+		case 0:
+			bad[n-2] ^= byte(1 + t.Choose(255))
+		case 1:
+			bad[n-1] ^= byte(1 + t.Choose(255))
+		default:
+			bad[n-2] ^= byte(1 + t.Choose(255))
+			bad[n-1] ^= byte(1 + t.Choose(255))
+		}
 	}
 	sc.Reply = bad
 	sc.Chunks = genChunks(t, len(bad))
